@@ -265,6 +265,21 @@ C13Twin ==
     IF Has(E, "tw") /\ E.tw.ctl /\ ~E.tw.same
     THEN {V("Act_RejectedLeavesNoTrace", "follow-up-differs-from-twin-that-never-saw-the-update", E.tw.diff)} ELSE {}
 
+\* -- mechanism drift (never a verdict): the container life cycle of Pipeline.tla against what the cache shows --
+DriftStep ==
+    LET known(c) == c \in DOMAIN ctrs
+        st2(c)   == IF c \in DOMAIN ctrs' THEN ctrs'[c].st ELSE "none"
+        c == Get(E, "c", "-")
+    IN (IF E.ev = "Create" /\ Ok /\ st2(c) # "created" THEN {V("Drift_Lifecycle", "created-container-is-" \o st2(c), c)} ELSE {})
+       \cup (IF E.ev = "Create" /\ E.err /\ ~E.panic /\ st2(c) \notin {"stale", "none"} /\ ~known(c)
+             THEN {V("Drift_Lifecycle", "refused-container-is-" \o st2(c), c)} ELSE {})
+       \cup (IF E.ev = "Start" /\ Ok /\ known(c) /\ ctrs[c].st = "created" /\ st2(c) # "running"
+             THEN {V("Drift_Lifecycle", "started-container-is-" \o st2(c), c)} ELSE {})
+       \cup (IF E.ev = "Stop" /\ Ok /\ known(c) /\ st2(c) # "exited" THEN {V("Drift_Lifecycle", "stopped-container-is-" \o st2(c), c)} ELSE {})
+       \cup (IF E.ev = "Remove" /\ Ok /\ st2(c) # "none" THEN {V("Drift_Lifecycle", "removed-container-is-" \o st2(c), c)} ELSE {})
+       \cup (IF E.ev = "RemovePod" /\ Ok /\ Get(E, "pod", "-") \in pods' THEN {V("Drift_Lifecycle", "removed-pod-still-cached", E.pod)} ELSE {})
+       \cup (IF E.ev = "RunPod" /\ Ok /\ Get(E, "pod", "-") \notin pods' THEN {V("Drift_Lifecycle", "run-pod-not-cached", E.pod)} ELSE {})
+
 \* -- C14 --
 C14Step ==
     (IF E.panic THEN {V("Act_NoPanic", "panic-in-" \o E.ev, Get(E, "panicmsg", ""))} ELSE {})
@@ -413,7 +428,7 @@ TrStep ==
     \* between a plugin restart and the Synchronize request that always follows it the state is transient (stale cache,
     \* nothing allocated yet): state invariants are not judged there, whatever is wrong after the Synchronize is its doing
     /\ broken' = IF E.ev = "Restart" THEN broken ELSE StateViols
-    /\ viols' = viols \o SetToSeq((IF E.ev = "Restart" THEN {} ELSE NewViols \cup C05Step \cup C11Step \cup C12Step \cup C13Step \cup C13Twin)
+    /\ viols' = viols \o SetToSeq((IF E.ev = "Restart" THEN {} ELSE NewViols \cup C05Step \cup C11Step \cup C12Step \cup C13Step \cup C13Twin \cup DriftStep)
                                   \cup C14Step)
     /\ l' = l + 1 /\ UNCHANGED done
 
